@@ -50,3 +50,10 @@ func (w *W) Close() error {
 	}
 	return w.f.Close()
 }
+
+// Flush writes buffered events to the file (used before a step that may crash the process).
+func (w *W) Flush() {
+	w.mu.Lock()
+	w.bw.Flush()
+	w.mu.Unlock()
+}
